@@ -21,6 +21,7 @@ import contextlib
 import types
 
 from . import common as C
+from . import c11 as S          # SDR device, history runner and per-step model terms (Model/SdrIO.v)
 
 MODEL_MAP = [
     {'python': 'pyipmi/helper.py:_clear_repository', 'coq': 'Model.Helper.clear_iter/clear_loop'},
@@ -29,6 +30,8 @@ MODEL_MAP = [
     {'python': 'pyipmi/__init__.py:Ipmi.send_message', 'coq': 'Model.Helper.send_loop/send_message'},
     {'python': 'pyipmi/sel.py:Sel.clear_sel/_clear_sel/get_sel_reservation_id',
      'coq': 'Model.Helper.clear_repository_helper (callables = ReserveSel / ClearSel exchanges)'},
+    {'python': 'pyipmi/sdr.py:Sdr._get_sdr_chunk; pyipmi/sensor.py:Sensor._get_device_sdr_chunk (chunk fetching in place, '
+               'operations in a row on one connection)', 'coq': 'Model.SdrIO.chunk_prog/get_sdr/sdr_entries (stateless, replayed per step)'},
     {'python': 'pyipmi/sdr.py:Sdr.clear_sdr_repository/_clear_sdr_repository/reserve_sdr_repository',
      'coq': 'Model.Helper.clear_repository_helper (callables = ReserveSdrRepository / ClearSdrRepository exchanges)'},
 ]
@@ -323,9 +326,26 @@ def judge(inp):
     return events, out, ORACLES[inp['fn']](inp, events, out)
 
 
+def oracle_sdr_history(inp):
+    """record-chunk fetching in place: several SDR reads / listings in one process, on one Ipmi object and
+    on objects created later, against fresh devices whose reservation counters restart.  Every Get request
+    of every step must carry the reservation it has to (the one just obtained / held by this operation,
+    never one remembered from an earlier operation) and the request count stays within the bound."""
+    steps = inp['calls']
+    for k, (st, ob) in enumerate(zip(steps, S.run_history(steps))):
+        dev, log, sleeps, out, resv = ob
+        v = S.oracle_resv(st, log, resv)
+        if v:
+            return k, v[0], 'step %d of %d (%s %s on connection %s): %s' % (k + 1, len(steps), st['op'], st['store'],
+                                                                          st.get('conn', 0), v[1])
+    return None
+
+
 def replay(data):
     if 'input' not in data.get('replay', {}):
         return False        # a broken proof / correspondence without a failing input: nothing to re-run
+    if data['replay'].get('oracle') == 'sdr_history':
+        return oracle_sdr_history(data['replay']['input']) is None
     inp = data['replay']['input']
     inp = dict(inp, os=[tuple(o) for o in inp['os']])
     return judge(inp)[2] is None
@@ -437,6 +457,49 @@ def run(ctx):
                                             replay={'oracle': inp['fn'], 'input': inp, 'observed_events': events,
                                                     'observed_outcome': list(out)})
 
+    # H. chunk fetching in place, with history: SDR reads and listings in a row on one Ipmi object and on
+    # later created ones; an earlier read has its reservation cancelled and renewed; the devices of the later
+    # steps hand out the same reservation values again (counter restarted / small ids).  Each step is
+    # compared with the stateless model (Model/SdrIO.v replayed from a clean state) and judged.
+    hid = 0
+    for rep in range(30 if q else 200):
+        hid += 1
+        store = ('repo', 'dev')[rep % 2]
+        ids = rng.sample(range(1, 14), 3)
+        mine = [S.mk_record(rng, i, rng.choice([5, 9, 16, 28, 30, 47])).hex() for i in ids]
+        res0 = rng.choice([None, {'repo': 0, 'dev': 0}, {'repo': 0, 'dev': 7}, {'repo': 65534, 'dev': 65534}])
+        lim = rng.choice([255, 20, 16, 8])
+
+        def hstep(conn, op, plan, resv):
+            st = {'repo': mine if store == 'repo' else [], 'dev': mine if store == 'dev' else [], 'limit': lim,
+                  'plan': plan, 'op': op, 'store': store, 'resv': resv, 'conn': 'c13h%d-%s' % (hid, conn)}
+            if res0 is not None:
+                st['res0'] = res0
+            if op == 'get':
+                rec = bytes.fromhex(rng.choice(mine))
+                st['rid'] = rec[0] | rec[1] << 8
+            return st
+        resv = rng.choice(['none', 'valid'])
+        cancel = [('none',)] * rng.randrange(1, 5) + [('cancel',)]
+        steps = [hstep(0, 'get', cancel, resv), hstep(0, 'get', [], resv), hstep(0, rng.choice(['get', 'list']), [], 'none'),
+                 hstep(1, 'get', cancel if rep % 2 else [], resv), hstep(0, 'get', [], rng.choice(['none', 'valid']))]
+        steps = steps[:rng.randrange(2, 6)]
+        first = None
+        for k, (st, ob) in enumerate(zip(steps, S.run_history(steps))):
+            dev, log, sleeps, out, resv_used = ob
+            terms.append(S.term(st, dev, log, sleeps, out, resv_used))
+            meta.append({'input': {'history-step': k, 'op': st['op'], 'store': st['store'], 'conn': st['conn']}, 'events': len(log),
+                         'out': [out[0] if out[0] == 'ok' else out[1]]})
+            D.add(('sdr-history', hid, k, st['op'], store, tuple(map(tuple, st['plan']))), True, 'history sdr reads')
+            v = S.oracle_resv(st, log, resv_used)
+            if v and first is None:
+                first = (k, v)
+        if first and first[1][0] not in fails:
+            k, v = first
+            seq = C.shrink_history('C13', 'sdr_history', steps[:k + 1])
+            fails[v[0]] = C.Violation(key=v[0], what='%s [history of %d operation(s)]' % (v[1], len(seq or steps[:k + 1])),
+                                      replay={'oracle': 'sdr_history', 'input': {'calls': seq or steps[:k + 1]}},
+                                      found_input=bool(seq))
     budgets = [0, 1, 2, 3, 4, 5, 6]
     cap = 60000 if q else 400000
     for retry in budgets:
@@ -490,7 +553,7 @@ def run(ctx):
             os_.append(rng.choice(cont if rng.random() < 0.8 else a))
         record(inp, events, out, verdict, kind='random ' + fn)
 
-    failing, errors = C.coq_cases('C13', 'Corr.C13 Model.Helper', terms)
+    failing, errors = C.coq_cases('C13', 'Corr.C13 Model.Helper Lib.Prog Model.SdrIO Corr.C11', terms)
     res.mismatches = [{'case': meta[i], 'term': terms[i]} for i in failing[:50]]
     res.corr_errors = errors
     res.evaluations = len(terms)
@@ -502,7 +565,8 @@ def run(ctx):
                 'letter of the asking callable exactly when the implementation asks for one more outcome): '
                 'clear_repository_helper budgets 0..6 with and without caller reservation, get_sdr_chunk_helper budgets 1..6, '
                 'send_message budgets -1..6; clear_sel / clear_sdr_repository end to end; random long sequences with budgets '
-                '1..12. Compared: exact call + sleep sequence and final outcome. distinct = distinct (function, budget, '
+                '1..12; SDR reads / listings in a row on one Ipmi object and on later ones against devices with restarting '
+                'reservation counters (history stage, per step vs the stateless model). Compared: exact call + sleep sequence and final outcome. distinct = distinct (function, budget, '
                 'reservation, oracle); non-trivial = at least one call made' % maxlen)
     res.samples = [{'term': terms[i], 'case': meta[i]} for i in (1, len(terms) // 3, len(terms) // 2, len(terms) - 1)]
     res.oracle_failures = list(fails.values())
